@@ -238,9 +238,14 @@ pub(crate) fn on_task_update(
     let mut need_scheduling = false;
     // This relies on the fact that when worker switching to prefill, it will send Finish, followed by Start
     // And this cannot happen in any other way
+    // The worker keeps using the resources of the finished task for the task from its backlog, so
+    // nothing changes for the scheduler - unless tasks were waiting for the finished one, or the
+    // started task does not exist any more (canceled) and the worker will soon be free
     let is_prefill_update = updates.len() == 2
-        && matches!(updates[0], WorkerTaskUpdate::Finished { .. })
-        && matches!(updates[1], WorkerTaskUpdate::RunningPrefilled { .. });
+        && matches!(&updates[0], WorkerTaskUpdate::Finished { task_id }
+            if core.find_task(*task_id).is_none_or(|t| t.get_consumers().is_empty()))
+        && matches!(&updates[1], WorkerTaskUpdate::RunningPrefilled(msg)
+            if core.find_task(msg.task_id).is_some());
     for update in updates {
         match update {
             WorkerTaskUpdate::Finished { task_id } => {
